@@ -166,6 +166,20 @@ def saveAll : St → List (Name × Option Name × Nat) → Except Err St
     | .ok s' => saveAll s' rest
     | .error e => .error e
 
+/-- Which rows `resave_objects_from_continuation` re-saves (since fix 5da9efa the de-duplication is
+    by `(table, id)`, not by bare id): `pn` = `persistent_nicknames.items()` as
+    `(nickname, (obj._tablename, obj._id))`, `pt` = `persistent_objects_by_table.items()` as
+    `(tablename, obj._id)`, `hist` = `tables_to_keep_history_for`.  First the rows known by a
+    nickname, then those known by their table name whose `(tablename, id)` is not among the former,
+    both filtered to history-backed tables. -/
+def resaveRows (pn : List (Name × Name × Nat)) (pt : List (Name × Nat)) (hist : List Name) :
+    List (Name × Option Name × Nat) :=
+  let nicked : List (Name × Option Name × Nat) := pn.map (fun x => (x.2.1, some x.1, x.2.2))
+  let already : List (Name × Nat) := pn.map (fun x => (x.2.1, x.2.2))
+  let byTable : List (Name × Option Name × Nat) :=
+    (pt.filter (fun x => decide (x ∉ already))).map (fun x => (x.1, none, x.2))
+  (nicked ++ byTable).filter (fun x => decide (x.1 ∈ hist))
+
 inductive Op where
   /-- `save_row` called from `remember_row` (a row of the running iteration) -/
   | save (table : Name) (nick : Option Name) (id : Nat)
